@@ -22,11 +22,30 @@ exec(open(os.path.join(HERE, "tools", "claims.py")).read())
 
 ALL = [f"C{i:02d}" for i in range(1, 21)]
 
+sys.path.insert(0, HERE)
+
+
+def scale_sentence(pid):
+    """the 'Scale: ...' sentence of the check's own META rule (scale symbols, carriers and histories added on top of the small exhaustive space)"""
+    try:
+        import importlib
+
+        rule = importlib.import_module(f"props.{pid.lower()}").META["rule"]
+        k = rule.find("Scale:")
+        if k < 0:
+            return ""
+        end = rule.find(" non-trivial", k)
+        return " " + rule[k:end if end > 0 else None].strip()
+    except Exception:  # noqa: BLE001
+        return ""
+
+
 checks = []
 for pid in ALL:
     if pid not in CLAIMED:
         continue
-    c = CLAIMED[pid]
+    c = dict(CLAIMED[pid])
+    c["text"] = c["text"] + scale_sentence(pid)
     checks.append(dict(
         property_id=pid,
         quick_cmd=f"./check {pid} --tier quick",
